@@ -94,6 +94,16 @@ func isSetType(t types.Type) (types.Type, bool) {
 	return nil, false
 }
 
+// isBufferType: bytes.Buffer and strings.Builder are modelled as string accumulators.
+func isBufferType(t types.Type) bool {
+	n, ok := types.Unalias(t).(*types.Named)
+	if !ok || n.Obj().Pkg() == nil {
+		return false
+	}
+	p, nm := n.Obj().Pkg().Path(), n.Obj().Name()
+	return (p == "bytes" && nm == "Buffer") || (p == "strings" && nm == "Builder")
+}
+
 func isSeqType(t types.Type) (types.Type, bool) {
 	n, ok := t.(*types.Named)
 	if !ok {
@@ -116,6 +126,9 @@ func (tt *TypeTable) sortOf(t types.Type) string {
 	}
 	if n, ok := t.(*types.Named); ok && n.Obj().Name() == "V_Real" {
 		return "Real"
+	}
+	if isBufferType(t) {
+		return sString
 	}
 	switch u := t.Underlying().(type) {
 	case *types.Basic:
